@@ -5,6 +5,169 @@ CAFS_TRUSTED = ["BLAKE2b: the Lean implementation (Model/Blake2b.lean) equals mi
                 "harness/internal/memstore as the blob store contract"]
 
 PROPS = {
+    "C05": {
+        "sub": "c05",
+        "trivial": r"^(diff|update) store=\w+ nA=0 nB=0 ",
+        "thorough_seeds": 1,
+        "timeout_quick": 600,
+        "timeout_thorough": 3000,
+        "level_text": "Proof: C05_diff_exact (for bundles with distinct paths the diff has every name once, a name is reported iff the path "
+                      "was added, removed or changed its content key, every entry has the right type and existing/additional entries; "
+                      "C05_diff_exact_general states the same for arbitrary entry lists with last-entry-wins), C05_diffMaps_perm / "
+                      "C05_diff_perm (the diff as a set is independent of map iteration and entry order), C05_update_eq_download "
+                      "(a destination holding a download of A, updated to B with the diff entries processed in ANY order, succeeds and holds "
+                      "under every key exactly what a fresh download of B holds, .datamon metadata included; C05_update_perm_download: the "
+                      "same as a permutation of key/bytes pairs) and C05_local_id (the id of the local copy is found whatever the listing "
+                      "order and the file names); C05_update_localfs_partial: on a localfs directory the update does what the flat store "
+                      "does whenever no path is a directory of another one (the complement of finding C05-localfs-dir-file). Path conventions, the compared field, the update action table and the NoOverWrite "
+                      "flags are regenerated from the Go source on every run and checked by C05_facts_agree. The model is tied to the "
+                      "code by running the real core.Upload / Publish / Diff / Update on pairs of trees with controlled overlap against "
+                      "the object-store reference (memstore) and a localfs directory, comparing diff entries and the final destination "
+                      "(every file's length and SHA-256 prefix, metadata files, byte-equality with a fresh download) with the model.",
+        "level_note": "Trusted: Lean kernel (axioms propext, Classical.choice, Quot.sound), facts translator, harness and driver. Modelled, not "
+                      "verified: the Go code (hand-written functional model). File contents are abstract (content key -> bytes; C01-C03 "
+                      "relate keys and bytes); the YAML decoding of the local metadata into the entry list A is not modelled (the harness "
+                      "reads A from the archive and checks core.Diff, which decodes the local copy, against it). Concurrency is modelled "
+                      "as an arbitrary ORDER of whole per-entry operations (the entries have pairwise distinct keys). On localfs a "
+                      "file<->directory change between A and B is outside the theorem (flat key space) and fails in the code: recorded "
+                      "finding C05-localfs-dir-file with Lean witnesses C05_neg_localfs_*.",
+        "trusted": ["memstore = object-store semantics (flat keys, Delete of a missing key fails); localfs through afero.OsFs"],
+        "assumptions": ["paths within one bundle are pairwise distinct (C05_neg_duplicate_paths_order shows the diff is order dependent otherwise)",
+                        "no bundle entry is a .datamon/*.yaml path (never uploaded: genFileRe, checked in C05_facts_agree)",
+                        "bundle ids contain no '-' and no newline (KSUIDs are alphanumeric); at most 2^63 file lists",
+                        "the destination holds exactly a previous download of A (no extra or modified files)"],
+        "rule": "one evaluation = one core.Diff or core.Update call on a (tree A, tree B, destination store) triple whose result was compared "
+                "with the Lean model (diff: sorted entries with both bundle entries; update: ok/err, every destination file as "
+                "path|length|sha256-prefix, metadata files, equality with a fresh download); distinct = distinct case text + line; "
+                "pairs of two empty trees are trivial",
+    },
+    "C09": {
+        "sub": "c09",
+        "trivial": r"paths=-$",
+        "level_text": "Proof: C09_create_unique (any number of creators of one name, every order of their single atomic no-overwrite Put: exactly one "
+                      "ok, the stored descriptor is the winner's), C09_delete_exact (descriptor, every visible bundle with all its file lists, every "
+                      "label gone; every key of another repository untouched; nothing created or modified), C09_rename_exact (same ids, descriptors, "
+                      "file lists and labels under the new name and nothing else there; old name removed; others untouched), C09_deleteEntries_exact "
+                      "(every file list of every visible bundle = former entries, in order, minus the paths; all else unchanged) for a model that works "
+                      "on the real key strings by prefix listing like the Go code; key templates, CreateRepo's single NoOverWrite Put, ValidateRepo's "
+                      "classes and DeleteRepo's bundle options are discharged on facts regenerated from the sources on every run. The model is tied to "
+                      "pkg/core by replaying, from the dumped metadata state, every operation of random multi-repository histories and comparing the "
+                      "full state DIFF grouped by owning repository (GetArchivePathComponents), plus ListBundles of every repository.",
+        "level_note": "Trusted: Lean kernel, facts translator, harness (memstore = GCS semantics: atomic create-if-absent Put, Delete of a missing key "
+                      "fails). Values are abstracted to the fields the operations read plus a hash of the rest. The frame clauses need repository names "
+                      "without '/', which is all CreateRepo creates (validName_noSlash; necessity: C09_neg_frame_needs_noSlash); rename needs an unused "
+                      "new name (C09_neg_rename_needs_fresh). Error paths that stop half-way are modelled only up to ok/err (auxiliary in the trace).",
+        "trusted": ["memstore (reference object store: atomic no-overwrite Put, Delete/Get of a missing key = ErrNotExists)",
+                    "abstraction of YAML values: compared fields + hash of all remaining fields"],
+        "assumptions": ["repository names contain no '/' (enforced by ValidateRepo for every name CreateRepo / RenameRepo creates)",
+                        "rename: nothing is stored under the new name beforehand (RenameRepo itself only checks the descriptor)",
+                        "a bundle is 'of the repository' when its descriptor exists (file lists of never-committed uploads are outside the statement)",
+                        "the object store executes each Put atomically (concurrent creators: one store call each)"],
+        "rule": "one evaluation = one operation (create / delete / rename / delete-files / one schedule of concurrent creators / one truly parallel "
+                "create race) run on the real pkg/core and compared with the Lean model started from the same dumped state; distinct = distinct "
+                "operation text; delete-files with no path is trivial",
+    },
+    "C12": {
+        "sub": "c12",
+        "thorough_seeds": 1,
+        "timeout_quick": 1500,
+        "timeout_thorough": 3000,
+        "level_text": "Proof: the diamond protocol AS IT IS is a transition system over a create-if-absent store (Model/Diamond.lean: commit, cancel and "
+                      "split-run actors, one step = one protocol-relevant store call, schedule = list of actor indices, crash = never scheduled "
+                      "again). Proved for any number of actors, any schedule length and any crash points: C12_done_unique_immutable (terminal and "
+                      "split-done descriptors written at most once, never rewritten, one winner each), C12_refused_after_terminal, "
+                      "C12_done_split_not_rerun, C12_commit_content + C12_commit_listing (bundle = merge of the generations recorded in split-done "
+                      "for the splits done when the commit listed them; a run that lost the split-done race contributes nothing), "
+                      "C12_at_most_one_bundle_serial / _crash_aware (at most one bundle unless a commit passes its ready check while another commit "
+                      "sits in its section or a crashed commit left bundle.yaml without diamond-done), C12_crash_is_never_scheduled. The headline "
+                      "'at most one bundle' is REFUTED outside that domain by C12_neg_overlapping_commits and "
+                      "C12_neg_crash_before_done_then_retry (decide); both reproduce on the real code (known findings). The no-overwrite flags and "
+                      "the call order of the four entry points are facts regenerated from the Go sources on every run.",
+        "level_note": "Partial: one store call is one atomic step; the goroutines inside one API call (parallel descriptor/index fetches, blob "
+                      "uploads) are not modelled beyond the order of their protocol-relevant calls; merge conflict handling is C11's subject "
+                      "(harness uses disjoint or identical files across splits). Trusted: Lean kernel, facts translator, harness + scheduler store, "
+                      "memstore as the create-if-absent store. The real pkg/core entry points are driven call by call through seeded and exhaustive "
+                      "interleavings with crashes and truly parallel runs; every trace must be accepted by the model's actor automata.",
+        "trivial": r"^(term|splits)$",
+        "trusted": ["memstore implements put-if-absent atomically (GCS precondition semantics)",
+                    "calls classified as protocol-irrelevant (repo checks, blobs, immutable descriptors, bundle index files) commute with every other call"],
+        "assumptions": ["files of different splits have different paths or identical content (no merge conflicts: C11)",
+                        "one page of keys per splits listing (fewer than 1024 keys under the diamond)",
+                        "a crash = every further store call of that API call fails; a retry is a fresh API call"],
+        "rule": "one evaluation = one compared line: every protocol-relevant store call of every actor (`ev`: call kind + result class must be "
+                "what the model's automaton does next), every API result class (`fin`), the final diamond state, split states, bundles with "
+                "contents (`term`/`splits`/`bundles`), and the headline `amo` (at most one bundle; inside a finding trigger the line is tagged). "
+                "distinct = distinct operation text (the `amo` line carries the whole schedule)",
+    },
+    "C18": {
+        "sub": "c18",
+        "trivial": r"^(gen|store) ops=$",
+        "thorough_seeds": 1,
+        "timeout_quick": 900,
+        "timeout_thorough": 3000,
+        "level_text": "Proof (Lean 4, all programs, no bound on length, names or sizes) about two models. (1) The inode generator of "
+                      "pkg/fuse/inode.go and the reference counting of the inode store (refCount / Nlink / shouldDelete / ForgetInode): "
+                      "C18_inode_gen_unique (an allocation never returns a number in use, after any alloc/free history), "
+                      "C18_store_inodes_unique (no two nodes of the store share an inode whatever is created, looked up, unlinked and "
+                      "forgotten), C18_linked_never_reclaimed (a linked node survives every forget), with refutations for the unrepaired "
+                      "code (C18_neg_inode_gen_old, C18_neg_linked_dir_reclaimed_old). (2) The reference tree PosixTree with step = the "
+                      "POSIX answer (errno, kind, size, inode, bytes, directory entries) of every FUSE operation the property names: "
+                      "C18_wf_run / C18_names_unique / C18_inode_unique / C18_tree_shape (every program keeps names unique per directory, "
+                      "inodes unique among live nodes, every entry inside a linked directory), C18_remove_exactly_one and "
+                      "C18_rmdir_only_empty, C18_rename_preserves_contents, C18_write_changes_one, C18_trunc_changes_one, "
+                      "C18_read_after_write, C18_held_stays (a referenced inode stays addressable until forgotten), C18_forget_keeps_tree, "
+                      "and C18_commit_eq_tree (the recursive commit walk lists every file of the visible tree exactly once, path and bytes, "
+                      "nothing else). The real fsMutable is run against the reference tree operation by operation (random programs "
+                      "following the kernel protocol, inodes as ranks), followed by an audit of its three tables, Commit, and a download of "
+                      "the bundle; the generator and the store are compared in raw inode numbers / reference counts.",
+        "level_note": "Partial: the reference tree is the specification (what POSIX demands at the fuseutil.FileSystem interface), not a "
+                      "model of the Go tables; lookupTree / readDirMap / iNodeStore are tied to it by the differential runs and by the "
+                      "table audit (hook), the generator and the store's reference counting by their own models and raw-number traces. "
+                      "The kernel side of FUSE and jacobsa/fuse are not modelled: the harness plays the kernel (lookup counts, the checks "
+                      "the VFS makes before calling a file system). Backing files are bytes on the local disk. No concurrency. "
+                      "Trusted: Lean kernel, harness, driver, facts translator, the in-memory object store the commit writes to.",
+        "trusted": ["harness/internal/memstore (object store the commit uploads to); cafs / core upload and download are exercised, not modelled"],
+        "assumptions": [
+            "kernel protocol: every inode passed to an operation is one the kernel holds a lookup reference for; a forget never exceeds the lookups received; the root is never forgotten",
+            "checks the Linux VFS makes before it calls a file system are made by the harness: parents of lookup/unlink/rmdir/rename are linked directories "
+            "(create/mkdir also get files as parent: ENOTDIR), unlink only on files and rmdir only on directories, rename only between entries of the same kind, "
+            "never onto itself, never a directory below itself; no read/write/truncate on directories; no empty writes. One program in five ends with ONE operation "
+            "outside these checks; the mount's answers there differ from POSIX and are recorded as the four vfs-* known findings (not reachable through the kernel)",
+            "names are single path components from a 4-name alphabet; file contents stay below 1 KiB (the cafs writer hangs on a Write larger than a leaf: C01)",
+            "operations are issued one at a time (no concurrent FUSE requests)",
+            "bundle entry names are compared without their leading '/' (a mutable mount commits '/a/f' where an upload commits 'a/f'; both download to a/f)",
+        ],
+        "rule": "one evaluation = one operation line (an FS operation of a program, an audit, a commit, a download, or one whole generator / store history) "
+                "whose implementation result was compared with the Lean model's; distinct = distinct operation text; empty histories are trivial",
+    },
+    "C08": {
+        "sub": "c08",
+        "trivial": r"^(mkrepo|bundle) ",
+        "level_text": "Proof: the object-store model of UploadDescriptor / DownloadDescriptor / ListLabels / DeleteLabel refines the map "
+                      "repo -> name -> bundle (C08_refines for every operation, C08_history for every history from the empty context, for "
+                      "every name, prefix and unicode oracle): get returns the last assignment or not-found (C08_get_last_set, "
+                      "C08_get_after_delete), prefix listings are exact and duplicate-free (C08_list_exact), set/delete change no metadata "
+                      "key and no other label, also across repositories whose names are prefixes of each other (C08_label_frame, "
+                      "C08_label_frame_labels), every accepted name is afterwards resolved and listed (C08_accepted_resolvable). Path "
+                      "templates, the label-name rule, the validation call site and the label store are facts regenerated from the Go "
+                      "source on every run (C08_facts). The real pkg/core is run on the reference object store over random histories with "
+                      "hostile names and prefixes and compared operation by operation (result class, resolved bundle rank, sorted listing, "
+                      "frame check from store snapshots) with the compiled model.",
+        "level_note": "Trusted: Lean kernel, facts translator, harness, memstore as the object-store contract (GCS semantics: overwrite put, "
+                      "delete of a missing key = not found, prefix listing). Modelled, not verified: the Go code itself; YAML round-trip of the "
+                      "descriptor is taken as the identity; paging / worker pool / per-batch sort only permute a listing and are abstracted "
+                      "(the harness varies the batch size); label versions (versioned buckets) are out of scope. Listing prefixes of the "
+                      "form <name>/<prefix of label.yaml> are excluded (known finding C08-prefix-slash).",
+        "trusted": ["harness/internal/memstore is the storage.Store contract datamon is written for (GCS semantics)",
+                    "gopkg.in/yaml.v2 round-trips label names and bundle ids (exercised with hostile names, not proved)"],
+        "assumptions": ["label names and prefixes are valid UTF-8", "repositories are created through core.CreateRepo (validated names)",
+                        "operations of one history are sequential (concurrent label writers are not part of C08)",
+                        "the vmetadata store is used unversioned (label versions / `#` version keys are not modelled)"],
+        "rule": "one evaluation = one label operation (set / get / del / list, plus the final audit of every repo and every name used) "
+                "run on the real pkg/core over memstore and compared with the Lean model's result; distinct = distinct operation text; "
+                "mkrepo / bundle set-up lines are trivial",
+        "thorough_seeds": 2,
+    },
     "C11": {
         "sub": "c11",
         "trivial": r"^(merge|mergetie) mode=\S+ arr=[^;,]*$",
